@@ -40,6 +40,8 @@ ZOO = [
     _c('leap-century-day', {'unit', 'calendar'}, unit='day', dt=1, start='2099-12-24', dur=14, diseases=[SIS], networks=[RND]),
     _c('year-dt-tenth', {'dt'}, dt=0.1, dur=1.2, diseases=[SIR], networks=[RND], demographics=[dict(type='deaths', death_rate=50)]),
     _c('fractional-start', {'dt'}, start=2010.5, dt=0.5, dur=4, diseases=[SIS], networks=[RND]),
+    _c('default-start', {'dt'}, start=None, dt=0.5, dur=4, diseases=[SIS], networks=[RND]),
+    _c('start-zero', {'dt'}, start=0, dt=1.0, dur=8, diseases=[SIR], networks=[RND], demographics=[dict(type='deaths', death_rate=30)]),
     # modules on their own timelines
     _c('sis-finer-than-sim', {'own-dt'}, dt=1.0, dur=10, diseases=[dict(SIS, dt=0.5)], networks=[RND]),
     _c('sir-coarser-than-sim', {'own-dt'}, dt=0.5, dur=6, diseases=[dict(SIR, dt=1.0)], networks=[RND]),
@@ -69,7 +71,7 @@ ZOO = [
     _c('pregnancy-own-dt', {'pregnancy', 'own-dt'}, dt=0.5, dur=3.0, diseases=[SIS], networks=[RND],
        demographics=[dict(type='pregnancy', fertility_rate=150, dt=0.25, burnin=True)]),
     # networks and routes
-    _c('dict-beta-zero-entry', {'network', 'dict-beta'}, diseases=[dict(SIS, beta=dict(random=0.3, mf=0.0, static=0.1))],
+    _c('dict-beta-zero-entry', {'network', 'dict-beta'}, diseases=[dict(SIS, beta=dict(static=0.1, random=0.3, mf=0.0))],     # (keys in another order than the networks)
        networks=[RND, dict(type='mf', duration=3), dict(type='static', n_contacts=2)]),
     _c('static-deaths', {'network', 'deaths'}, diseases=[SIR], networks=[dict(type='static', n_contacts=4)], demographics=[dict(type='deaths', death_rate=50)]),
     _c('disk-births-deaths', {'network', 'births', 'deaths', 'global-rng'}, dt=0.5, dur=4, diseases=[SIS], networks=[dict(type='disk', r=0.2, v=0.1)],
@@ -92,6 +94,19 @@ ZOO = [
        interventions=[dict(type='sir_vx', prob=0.4, efficacy=0.8, start_year=2001, end_year=2004)]),
     _c('killer-only', {'intervention', 'deaths', 'no-disease'}, dur=6, networks=[RND], interventions=[dict(type='killer', p=0.08)]),
     _c('killer-with-sis', {'intervention', 'deaths'}, dt=0.5, dur=4, diseases=[SIS], networks=[RND], interventions=[dict(type='killer', p=0.06)]),
+    # suggested by the property checks after the first zoo pass
+    _c('ebola-with-deaths', {'disease', 'deaths'}, unit='day', dt=1, start='2020-01-01', dur=30, diseases=[dict(type='ebola', beta=0.5, init_prev=0.1)], networks=[RND],
+       demographics=[dict(type='deaths', death_rate=3000)]),
+    _c('measles-with-deaths', {'disease', 'deaths'}, unit='day', dt=1, start='2020-01-01', dur=30, diseases=[dict(type='measles', beta=0.5, init_prev=0.1)], networks=[RND],
+       demographics=[dict(type='deaths', death_rate=3000)]),
+    _c('cholera-week-unit', {'disease', 'unit'}, unit='week', dt=1, start='2020-01-06', dur=8, diseases=[dict(type='cholera', init_prev=0.1)], networks=[RND]),
+    _c('static-heavy-mortality', {'network', 'deaths'}, n_agents=300, dur=5, diseases=[SIS], networks=[dict(type='static', n_contacts=6)], demographics=[dict(type='deaths', death_rate=200)]),
+    _c('randomnet-own-dt-timed', {'own-dt', 'network'}, dt=0.5, dur=6, diseases=[SIS], networks=[dict(type='random', n_contacts=2, dur=2.0, dt=1.0)]),
+    _c('fine-disease-and-demography', {'own-dt', 'births', 'deaths'}, dt=1.0, dur=5, diseases=[dict(SIS, dt=0.25)], networks=[RND],
+       demographics=[dict(type='births', birth_rate=60, dt=0.25), dict(type='deaths', death_rate=60, dt=0.25)]),
+    _c('syphilis-pregnancy-maternal', {'disease', 'pregnancy', 'deaths'}, dt=0.25, dur=3, diseases=[dict(type='syphilis', beta=dict(mf=[0.4, 0.2], maternal=[0.9, 0.0]), init_prev=0.15)],
+       networks=[dict(type='mf', duration=3), dict(type='maternal')],
+       demographics=[dict(type='pregnancy', fertility_rate=120), dict(type='deaths', death_rate=30)]),
     # the other built-in diseases
     _c('ncd', {'disease', 'global-rng'}, dur=6, diseases=[dict(type='ncd')], networks=[RND]),
     _c('hiv-mf', {'disease'}, dt=0.5, dur=4, diseases=[dict(type='hiv', beta=dict(mf=[0.1, 0.05]), init_prev=0.1)], networks=[dict(type='mf', duration=3)]),
